@@ -65,6 +65,14 @@ def work(job):
     if "endFailOK=false" in wf:
         res["corr"].append({"kind": "endFailOK fails: some FAIL of end() does not leave the fail state behind", "args": case.args})
     has_yield = bool(list(case.outcome.cctx.yield_codes))
+    # the reference semantics of the program, when it can be expressed and the machine was shown equivalent to it
+    ref_ps = None
+    try:
+        import srcexport, refine
+        if refine.refine(prog["src"], base, timeout=25)["status"] == "closed":
+            ref_ps = srcexport.export_source(prog["src"])
+    except Exception:
+        ref_ps = None
     # (empty chunks are only defined for parsers whose feed starts with the end check)
     zl = case if case.outcome.cctx._needs_end_check() else rtdiff.Case(prog, base + ["-fzero-len-input-support"], os.path.join(wd, "z"))
     n_in = 10 if tier == "quick" else 40
@@ -157,6 +165,15 @@ def work(job):
             b = idxB if (idxB is not None and idxB[1] < n) else None
             if (a is None) != (b is None) or (a is not None and (a[0] != b[0] or a[1] != b[1])):
                 res["viol"].append({"kind": "P3-terminal-cursor", "input": data.hex(), "whole_chunk": a, "byte_per_call": b, "args": case.args})
+        # P3 (absolute): where the reference semantics fails on this input is where FAIL leaves the cursor — for programs
+        # the reference expresses and whose compiled machine it was shown equivalent to (so that a difference is the cursor's)
+        if ref_ps is not None and firstA_in_data is not None and firstA_in_data[0] == "FAIL" and not has_yield:
+            r = rtdiff.model().ask("srcrun", case.opts, ref_ps, case.mt, " ".join(str(b) for b in data), timeout=20)
+            res["ref_positions"] = res.get("ref_positions", 0) + 1
+            p_bin = firstA_in_data[1]
+            ok = (r == f"halt FAIL at {p_bin}") or (r == f"alive after {n}" and p_bin == n) or not r.startswith(("halt", "alive"))
+            if not ok:
+                res["viol"].append({"kind": "P3-fail-cursor-vs-reference", "input": data.hex(), "binary_cursor": p_bin, "reference": r, "args": case.args})
         # P4: strict-done only postpones DONE
         if strict.ok and not has_yield:
             ops = ["start"] + [f"feedy:{data[i:i+1].hex()}" for i in range(n)] + [f"feedy:{tail[:1].hex()}"] + (["end"] if case.eof() else [])
@@ -201,7 +218,7 @@ def main():
     finally:
         shutil.rmtree(wd, ignore_errors=True)
     byname = {p["name"]: p for p in progs}
-    st = {"programs": 0, "histories": 0, "rejected": 0, "terminal_codes_seen": {}}
+    st = {"programs": 0, "histories": 0, "rejected": 0, "terminal_codes_seen": {}, "fail_cursors_checked_against_reference": 0}
     distinct = set()
     for r in results:
         if r["status"] != "ok":
@@ -209,6 +226,7 @@ def main():
             continue
         st["programs"] += 1
         st["histories"] += r["histories"]
+        st["fail_cursors_checked_against_reference"] += r.get("ref_positions", 0)
         for k, v in r["term_seen"].items():
             st["terminal_codes_seen"][k] = st["terminal_codes_seen"].get(k, 0) + v
         prog = byname[r["name"]]
